@@ -644,7 +644,7 @@ def main():
     chk.assumptions = ['expat (through refxml) is the independent parser; XML 1.1 specifics (NEL/LS line ends, references to C0 controls, restricted characters) are emulated in the harness before expat sees the text',
                        'python codecs decode the output encodings', 'comments never contain -- and PIs never contain ?> (XSLT-level errors, not serializer matters)']
     chk.ensure('plain', 'xvdrv')
-    n = 16000 if chk.tier == 'quick' else 3000000
+    n = 50000 if chk.tier == 'quick' else 3000000
     chk.run_cases('c04', 'case', range(n))
     chk.run_cases('c04', 'xslt_case', range(n // 2))
     chk.finish(min_nontrivial=200, required_stats=('round_trips', 'refused_as_required', 'transform_round_trips', 'serializers_agree_on_tree'))
